@@ -517,7 +517,7 @@ impl Engine for C20 {
     fn required_probes(&self) -> Vec<&'static str> {
         vec![
             "probe.lazy_first_use_contended", "probe.lazy_first_use_contended_by_2plus", "probe.switch_inside_render", "probe.world_with_corrupt_lazy_partial",
-            "policy.random", "policy.pct", "policy.sticky", "policy.skewed", "site.template.element", "site.parse.element", "site.sink.write", "site.source.read", "site.data.get", "site.lock.acquire",
+            "policy.random", "policy.pct", "policy.sticky", "policy.skewed", "site.template.element", "site.parse.element", "site.sink.write", "site.source.read", "site.data.get", "site.lock.acquire", "site.expr.evaluate", "site.filter.evaluate", "site.registers.get",
             "fault.sched.stall",
         ]
     }
